@@ -1,5 +1,5 @@
 # C20 - backup superblocks and descriptors are always usable
-import json, os, struct, shutil, subprocess, hashlib, concurrent.futures
+import json, os, re, struct, shutil, subprocess, hashlib, concurrent.futures
 import e2v, extfmt
 from extfmt import *
 
@@ -103,6 +103,8 @@ CONFIGS = [
     (["-t", "ext4", "-b", "1024", "-O", "bigalloc,meta_bg,^resize_inode", "-C", "4096", "-g", "8192"], "80M"),
     # sparse_super2 without a resize inode, many groups, files everywhere: a shrink makes another group the last-group backup location
     (["-t", "ext4", "-b", "1024", "-g", "1024", "-O", "sparse_super2,^resize_inode,^has_journal", "-N", "512"], "20M"),
+    # ... and with 32-byte descriptors: the shrink keeps the number of descriptor blocks (resize2fs's short way through blocks_to_move)
+    (["-t", "ext4", "-b", "1024", "-g", "1024", "-O", "sparse_super2,^resize_inode,^has_journal,^64bit", "-N", "512"], "20M"),
     # no ext_attr at first: the feature arrives in the primary superblock only (as the kernel sets it on the first setxattr)
     (["-t", "ext4", "-b", "1024", "-O", "^ext_attr", "-I", "128"], "33M"),
 ]
@@ -124,9 +126,18 @@ def tool_case(src, mexe, idx, seed, tier):
     T = lambda p: os.path.join(src, p)
     steps = []
 
+    after_resize = []
+
     def step(cmd, inp=None):
         rc, out = e2v.sh(cmd, env=env, timeout=300, input=inp)
         steps.append({"cmd": " ".join(os.path.basename(c) if c.startswith("/") and c != img else c for c in cmd).replace(img, "IMG"), "rc": rc})
+        if cmd[0].endswith("resize2fs") and rc == 0:
+            rcf, outf = e2v.sh([T("e2fsck/e2fsck"), "-fn", img], env=env, timeout=300)
+            if rcf != 0:
+                after_resize.append("e2fsck -fn right after a successful '%s' exits %d: %s" % (steps[-1]["cmd"], rcf, " | ".join(l for l in outf.split("\n") if "?" in l or "differences" in l)[:200]))
+        # a repairing e2fsck right after a successful resize2fs has nothing to repair
+        if len(steps) >= 2 and rc not in (0,) and cmd[0].endswith("e2fsck") and steps[-2]["cmd"].startswith("resize2fs") and steps[-2]["rc"] == 0:
+            after_resize.append("e2fsck %s right after a successful '%s' exits %d: %s" % (cmd[1], steps[-2]["cmd"], rc, " | ".join(l for l in out.split("\n") if "?" in l or "differences" in l)[:200]))
         return rc, out
     rc, out = step([T("misc/mke2fs"), "-q", "-F"] + opts + [img, size])
     if rc != 0:
@@ -213,13 +224,16 @@ def tool_case(src, mexe, idx, seed, tier):
             newk = int(size[:-1]) * 1024 * 3 // 4
             if wide:
                 fsn = Fs(img)
-                newk = r.randint(6, fsn.groups_count - 2) * fsn.blocks_per_group + r.choice([1, 1, 300, 700])
+                rcp, outp = e2v.sh([T("resize/resize2fs"), "-P", img], env=env, timeout=120)
+                mp = re.search(r"minimum size of the filesystem: (\d+)", outp)
+                gmin = max(6, -(-int(mp.group(1)) // fsn.blocks_per_group) + 1) if mp else 6
+                newk = r.randint(min(gmin, fsn.groups_count - 2), fsn.groups_count - 2) * fsn.blocks_per_group + r.choice([1, 1, 300, 700])
             step([T("e2fsck/e2fsck"), "-fy", img])
             step([T("resize/resize2fs"), img, "%dK" % newk])
         else:
             step(m)
     recipe = {"mke2fs": opts, "size": size, "steps": steps}
-    problems = []
+    problems = list(after_resize)
     try:
         fs = Fs(img)
         groups = model_groups(mexe, fs)
